@@ -20,7 +20,7 @@ EXPLANATION = (
     "as files; R16c every text-mode open of document content — the reader, both fix-pass writers, the debug reader, "
     "the stdin spool and the API's fix_string spool — pins encoding='utf-8', so writer and reader agree whatever the "
     "locale; R16d the API's presentation object overrides every MainPresentation method that prints, and copies a "
-    "scan failure field for field; R16e (i) at each of the ~1 980 ParserLogger call sites a constant format has as "
+    "scan failure field for field; R16g API result objects are built from what the presentation captured, never from the exit code; R16e (i) at each of the ~1 980 ParserLogger call sites a constant format has as "
     "many '$' as arguments, a format that embeds run-time text has no arguments, and the logger logs an argument-free "
     "format verbatim; (ii) code that is control-dependent on a log-level test only logs or saves/restores the log "
     "level; (iii) the stack-trace flag only selects message detail. "
@@ -276,6 +276,36 @@ def r16d(ctx: Context) -> None:
             rule.fail(key, where(copier, ctor[0]), f"field '{name}' of the failure reaches the API as {copied.get(name, 'nothing')}: the API reports something other than the command line prints")
 
 
+def api_results_from_presentation(ctx: Context, rule_id: str = "R16g") -> None:
+    """Every result object the API returns is built from what the presentation captured, on every path."""
+    prog = ctx.prog
+    rule = ctx.rule(rule_id, "API results are built from what the run printed, never from the exit code", 3)
+    api = prog.cls(API)
+    wanted = {
+        "PyMarkdownScanPathResult": ["scan_failures", "pragma_errors"],
+        "PyMarkdownFixResult": ["files_fixed"],
+        "PyMarkdownListPathResult": ["pso"],
+    }
+    seen = 0
+    for func in api.methods.values():
+        for node in walk_local(func.node):
+            if not isinstance(node, ast.Call):
+                continue
+            name = (dotted(node.func) or "").split(".")[-1]
+            if name not in wanted:
+                continue
+            seen += 1
+            key = func_key(func, node)
+            texts = [norm(a) for a in node.args] + [norm(k.value) for k in node.keywords]
+            missing = [field for field in wanted[name] if not any(f"presentation.{field}" in text for text in texts)]
+            if missing or len(texts) != len(wanted[name]):
+                rule.fail(key, where(func, node), f"{func.short} builds a {name} from {texts}: the result no longer reflects what the run reported ({wanted[name]} of the presentation), so the API disagrees with the command line (for example under the minimal return-code scheme)")
+            else:
+                rule.ok(key, f"built from presentation.{'/'.join(wanted[name])}")
+    if seen < 3:
+        raise AnalysisError(f"only {seen} API result constructions found")
+
+
 def _literal_only(expr: ast.AST) -> Optional[str]:
     if isinstance(expr, ast.Constant) and isinstance(expr.value, str):
         return expr.value
@@ -405,3 +435,4 @@ def run(ctx: Context) -> None:
     r16c(ctx)
     r16d(ctx)
     r16e(ctx)
+    api_results_from_presentation(ctx)
